@@ -116,8 +116,13 @@ func (b *B) TypeDeclNode(t *Type, f *File) *Node {
 	for _, im := range t.Impl {
 		anns = append(anns, " @implements "+im)
 	}
-	if b.R != nil {
-		base.Shuffle(b.R, anns)
+	if t.DocLines != nil {
+		anns = t.DocLines
+	} else {
+		if b.R != nil {
+			base.Shuffle(b.R, anns)
+		}
+		t.DocLines = anns
 	}
 	n.Doc = append(n.Doc, anns...)
 	var uses []*Use
